@@ -50,6 +50,95 @@ theorem graphWF_cleanup {g : Graph} (h : graphWF g = true) (n : Nat) (p : Nat ×
   · exact (h.2 _ hm).2 p hp
   · rw [hd] at hp; simp at hp
 
+/-- the same as a proposition about `Graph.node` (this is the form the walk uses; it also holds for the visible graph) -/
+def GraphWF (g : Graph) : Prop :=
+  g.root < g.nodes.length ∧ ∀ n (p : Nat × List String),
+    (p ∈ (g.node n).setup → p.1 < g.nodes.length) ∧ (p ∈ (g.node n).cleanup → p.1 < g.nodes.length)
+
+theorem GraphWF.of_bool {g : Graph} (h : graphWF g = true) : GraphWF g :=
+  ⟨graphWF_root h, fun n p => ⟨graphWF_setup h n p, graphWF_cleanup h n p⟩⟩
+
+/-! ## the visible graph of the lazy expansion -/
+
+/-- a node without its edges -/
+def Node.noEdges (nd : Node) : Node := { nd with setup := [], cleanup := [] }
+
+/-- two graphs that differ in their edges only -/
+structure SameNodes (gv g : Graph) : Prop where
+  workers : gv.workers = g.workers
+  root : gv.root = g.root
+  len : gv.nodes.length = g.nodes.length
+  node : ∀ n, (gv.node n).noEdges = (g.node n).noEdges
+
+theorem SameNodes.refl (g : Graph) : SameNodes g g := ⟨rfl, rfl, rfl, fun _ => rfl⟩
+
+theorem SameNodes.trans {a b c : Graph} (h1 : SameNodes a b) (h2 : SameNodes b c) : SameNodes a c :=
+  ⟨h1.workers.trans h2.workers, h1.root.trans h2.root, h1.len.trans h2.len, fun n => (h1.node n).trans (h2.node n)⟩
+
+theorem SameNodes.name {gv g : Graph} (h : SameNodes gv g) (n : Nat) : (gv.node n).name = (g.node n).name := by
+  have := congrArg Node.name (h.node n); exact this
+theorem SameNodes.pfx {gv g : Graph} (h : SameNodes gv g) (n : Nat) : (gv.node n).pfx = (g.node n).pfx := by
+  have := congrArg Node.pfx (h.node n); exact this
+theorem SameNodes.cls {gv g : Graph} (h : SameNodes gv g) (n : Nat) : (gv.node n).cls = (g.node n).cls := by
+  have := congrArg Node.cls (h.node n); exact this
+theorem SameNodes.flat {gv g : Graph} (h : SameNodes gv g) (n : Nat) : (gv.node n).flat = (g.node n).flat := by
+  have := congrArg Node.flat (h.node n); exact this
+theorem SameNodes.objectRoot {gv g : Graph} (h : SameNodes gv g) (n : Nat) : (gv.node n).objectRoot = (g.node n).objectRoot := by
+  have := congrArg Node.objectRoot (h.node n); exact this
+theorem SameNodes.sets {gv g : Graph} (h : SameNodes gv g) (n : Nat) : (gv.node n).sets = (g.node n).sets := by
+  have := congrArg Node.sets (h.node n); exact this
+theorem SameNodes.maxTries {gv g : Graph} (h : SameNodes gv g) (n : Nat) : (gv.node n).maxTries = (g.node n).maxTries := by
+  have := congrArg Node.maxTries (h.node n); exact this
+theorem SameNodes.objs {gv g : Graph} (h : SameNodes gv g) (n : Nat) : (gv.node n).objs = (g.node n).objs := by
+  have := congrArg Node.objs (h.node n); exact this
+theorem SameNodes.worker {gv g : Graph} (h : SameNodes gv g) (w : Nat) : gv.worker w = g.worker w := by
+  unfold Graph.worker; rw [h.workers]
+
+/-- a node of the visible graph is the node of the full graph with some of its edges removed -/
+theorem vis_node (g : Graph) (s : State) (n : Nat) :
+    ∃ su cl, (vis g s).node n = { g.node n with setup := su, cleanup := cl } ∧
+      (∀ p ∈ su, p ∈ (g.node n).setup) ∧ (∀ p ∈ cl, p ∈ (g.node n).cleanup) := by
+  unfold vis
+  by_cases he : s.hidden.isEmpty = true
+  · simp only [he, if_true]
+    exact ⟨_, _, rfl, fun _ h => h, fun _ h => h⟩
+  · simp only [he, Bool.false_eq_true, if_false]
+    unfold Graph.node
+    simp only [List.getD_eq_getElem?_getD, List.getElem?_map, List.getElem?_zipIdx]
+    cases hn : g.nodes[n]? with
+    | none => exact ⟨[], [], rfl, fun _ h => by simp at h, fun _ h => by simp at h⟩
+    | some nd =>
+      simp only [Option.map_some, Option.getD_some, Nat.zero_add]
+      split
+      · exact ⟨[], [], rfl, fun _ h => by simp at h, fun _ h => by simp at h⟩
+      · exact ⟨_, _, rfl, fun _ h => (List.mem_filter.mp h).1, fun _ h => (List.mem_filter.mp h).1⟩
+
+theorem vis_len (g : Graph) (s : State) : (vis g s).nodes.length = g.nodes.length := by
+  unfold vis
+  split
+  · rfl
+  · simp
+
+theorem sameNodes_vis (g : Graph) (s : State) : SameNodes (vis g s) g := by
+  refine ⟨?_, ?_, vis_len g s, fun n => ?_⟩
+  · unfold vis; split <;> rfl
+  · unfold vis; split <;> rfl
+  · obtain ⟨su, cl, h, _⟩ := vis_node g s n
+    rw [h]; rfl
+
+theorem GraphWF.vis {g : Graph} (h : GraphWF g) (s : State) : GraphWF (vis g s) := by
+  have hs := sameNodes_vis g s
+  refine ⟨by rw [hs.root, hs.len]; exact h.1, fun n p => ?_⟩
+  obtain ⟨su, cl, hn, hsu, hcl⟩ := vis_node g s n
+  rw [hn, hs.len]
+  exact ⟨fun hp => (h.2 n p).1 (hsu p hp), fun hp => (h.2 n p).2 (hcl p hp)⟩
+
+theorem GraphWF.root_lt {g : Graph} (h : GraphWF g) : g.root < g.nodes.length := h.1
+theorem GraphWF.setup_lt {g : Graph} (h : GraphWF g) (n : Nat) (p : Nat × List String) (hp : p ∈ (g.node n).setup) :
+    p.1 < g.nodes.length := (h.2 n p).1 hp
+theorem GraphWF.cleanup_lt {g : Graph} (h : GraphWF g) (n : Nat) (p : Nat × List String) (hp : p ∈ (g.node n).cleanup) :
+    p.1 < g.nodes.length := (h.2 n p).2 hp
+
 /-! ## access lemmas -/
 
 theorem nd_setNd_cases (s : State) (m : Nat) (f : NodeD → NodeD) (n : Nat) :
@@ -296,19 +385,19 @@ theorem pickParent_spec (g : Graph) (s : State) (n w c : Nat) (s' : State) (h : 
     rw [← h.1]
     exact (List.mem_filter.mp this).1
 
-theorem pickChild_silent (g : Graph) (hwf : graphWF g = true) (s : State) (n w c : Nat) (s' : State)
+theorem pickChild_silent (g : Graph) (hwf : GraphWF g) (s : State) (n w c : Nat) (s' : State)
     (h : pickChild g s n w = some (c, s')) : Silent g w s (pushPath s' w c) := by
   obtain ⟨hc, cc, f, hs⟩ := pickChild_spec g s n w c s' h
   obtain ⟨p, hp, hpc⟩ := List.mem_map.mp hc
-  have hlt : c < g.nodes.length := by rw [← hpc]; exact graphWF_cleanup hwf n p hp
+  have hlt : c < g.nodes.length := by rw [← hpc]; exact hwf.cleanup_lt n p hp
   rw [hs]
   exact (silent_setCr g w s cc f).trans (silent_pushPath g w _ c hlt)
 
-theorem pickParent_silent (g : Graph) (hwf : graphWF g = true) (s : State) (n w c : Nat) (s' : State)
+theorem pickParent_silent (g : Graph) (hwf : GraphWF g) (s : State) (n w c : Nat) (s' : State)
     (h : pickParent g s n w = some (c, s')) : Silent g w s (pushPath s' w c) := by
   obtain ⟨hc, cc, f, hs⟩ := pickParent_spec g s n w c s' h
   obtain ⟨p, hp, hpc⟩ := List.mem_map.mp hc
-  have hlt : c < g.nodes.length := by rw [← hpc]; exact graphWF_setup hwf n p hp
+  have hlt : c < g.nodes.length := by rw [← hpc]; exact hwf.setup_lt n p hp
   rw [hs]
   exact (silent_setCr g w s cc f).trans (silent_pushPath g w _ c hlt)
 
@@ -320,7 +409,7 @@ theorem silent_dropChildren (g : Graph) (w : Nat) (s : State) (next v : Nat) (l 
   rintro s ⟨p, _⟩
   exact silent_setCr g w s _ _
 
-theorem afterTraverse_silent (g : Graph) (hwf : graphWF g = true) (s : State) (w next prev : Nat) (dir : Dir) :
+theorem afterTraverse_silent (g : Graph) (hwf : GraphWF g) (s : State) (w next prev : Nat) (dir : Dir) :
     Silent g w s (afterTraverse g s w next prev dir).1 := by
   unfold afterTraverse
   cases hd : runDecision g s next w with
@@ -343,6 +432,13 @@ theorem afterTraverse_silent (g : Graph) (hwf : graphWF g = true) (s : State) (w
       · simp only [hrun, Bool.false_eq_true, if_false]
         by_cases hc : isCleanupReady g s1 next w = true
         · simp only [hc, if_true]
+          by_cases hpp : (!(g.node next).flat && (s1.wd w).unexplored) = true
+          · simp only [hpp, if_true]
+            refine h1.trans (silent_setWd g w s1 _ (fun _ => rfl) (fun _ => rfl) (fun _ => Or.inl rfl) ?_)
+            intro d _ x hx
+            have hx' : x = g.root := by simpa using hx
+            rw [hx']; exact hwf.root_lt
+          simp only [hpp, Bool.false_eq_true, if_false]
           have h2 := silent_dropChildren g w s1 next w (g.node next).setup
           cases hr : reverseNode g (List.foldl (fun s x => dropChild g s x.1 next w) s1 (g.node next).setup) next w with
           | error e => exact h1.trans h2
@@ -361,16 +457,47 @@ def preNameOf (g : Graph) (n w : Nat) : String :=
   "all.internal.stateless.noop.vms." ++ " ".intercalate (g.node n).objs ++ ".nets." ++
     (g.worker w).swarm ++ "." ++ ((g.worker w).id.splitOn ".").getLast!
 
-/-- a `startTest` at the end of the loop part, with what guarded it -/
+theorem sharedResults_sameNodes {gv g : Graph} (h : SameNodes gv g) (s : State) (n : Nat) :
+    sharedResults gv s n = sharedResults g s n := by
+  unfold sharedResults Graph.copies Graph.classNodes
+  simp only [h.flat, h.cls, h.len]
+
+theorem preNameOf_sameNodes {gv g : Graph} (h : SameNodes gv g) (n w : Nat) : preNameOf gv n w = preNameOf g n w := by
+  unfold preNameOf
+  rw [h.objs, h.worker]
+
+theorem startTest_sameNodes {gv g : Graph} (h : SameNodes gv g) (s : State) (n w : Nat) (ph : Phase) (dir : Dir) :
+    (startTest gv s n w ph dir).1 = (startTest g s n w ph dir).1 := by
+  have e1 : (Phase.plain == Phase.pre) = false := rfl
+  have e2 : (Phase.pre == Phase.pre) = true := rfl
+  have e3 : (Phase.main == Phase.pre) = false := rfl
+  cases ph <;> simp [startTest, e1, e2, e3, sharedResults_sameNodes h, h.pfx, h.name]
+
+/-- a `startTest` at the end of the loop part, with what guarded it (the decision was taken on the graph `gv` as
+parsed so far, which differs from `g` in its edges only) -/
 inductive StartFrom (g : Graph) (w : Nat) (s1 s' : State) : Prop
-  | plain (n : Nat) (dir : Dir) (s0 : State) (evs : List Event)
+  | plain (n : Nat) (dir : Dir) (s0 : State) (evs : List Event) (gv : Graph) (hgv : SameNodes gv g)
       (hn : n < g.nodes.length) (hroot : (g.node n).objectRoot = false)
-      (hdec : runDecision g s0 n w = .ok (true, s1, evs))
+      (hdec : runDecision gv s0 n w = .ok (true, s1, evs))
       (h : s' = (startTest g s1 n w .plain dir).1)
   | pre (n : Nat) (dir : Dir)
       (hn : n < g.nodes.length) (hroot : (g.node n).objectRoot = true)
       (h : s' = (startTest g (s1.setWd w (fun d => { d with preResults := (s1.nd n).results, preName := preNameOf g n w }))
               n w .pre dir).1)
+
+theorem StartFrom.transport {gv g : Graph} {w : Nat} {s1 s' : State} (h : SameNodes gv g) (a : StartFrom gv w s1 s') :
+    StartFrom g w s1 s' := by
+  cases a with
+  | plain n dir s0 evs gv' hgv' hn hroot hdec e =>
+    exact .plain n dir s0 evs gv' (hgv'.trans h) (by rw [← h.len]; exact hn) (by rw [← h.objectRoot]; exact hroot) hdec
+      (by rw [e, startTest_sameNodes h])
+  | pre n dir hn hroot e =>
+    exact .pre n dir (by rw [← h.len]; exact hn) (by rw [← h.objectRoot]; exact hroot)
+      (by rw [e, startTest_sameNodes h, preNameOf_sameNodes h])
+
+theorem Silent.transport {gv g : Graph} {w : Nat} {s s' : State} (h : gv.nodes.length = g.nodes.length) (a : Silent gv w s s') :
+    Silent g w s s' :=
+  ⟨a.nodesLen, a.workersLen, a.results, a.job, a.tag, a.others, a.preR, a.preN, a.pc, by rw [← h]; exact a.path⟩
 
 /-- effect of a piece of the loop: silent, or silent followed by one start (and then the worker is suspended) -/
 def StepEff (g : Graph) (w : Nat) (s : State) (r : Step) : Prop :=
@@ -382,7 +509,13 @@ theorem StepEff.of_silent {g : Graph} {w : Nat} {s s1 : State} {r : Step} (a : S
   · exact Or.inl (a.trans b)
   · exact Or.inr ⟨⟨s2, a.trans b, c⟩, d⟩
 
-theorem traverseNode_eff (g : Graph) (hwf : graphWF g = true) (s : State) (w next prev : Nat) (dir : Dir)
+theorem StepEff.transport {gv g : Graph} {w : Nat} {s : State} {r : Step} (h : SameNodes gv g) (a : StepEff gv w s r) :
+    StepEff g w s r := by
+  rcases a with a | ⟨⟨s1, a, b⟩, c⟩
+  · exact Or.inl (a.transport h.len)
+  · exact Or.inr ⟨⟨s1, a.transport h.len, b.transport h⟩, c⟩
+
+theorem traverseNode_eff (g : Graph) (hwf : GraphWF g) (s : State) (w next prev : Nat) (dir : Dir)
     (hnext : next < g.nodes.length) : StepEff g w s (traverseNode g s w next prev dir) := by
   unfold traverseNode
   by_cases hocc : isOccupied g s next w = true
@@ -405,12 +538,12 @@ theorem traverseNode_eff (g : Graph) (hwf : graphWF g = true) (s : State) (w nex
           refine Or.inr ⟨⟨s1, h1, StartFrom.pre next dir hnext hroot rfl⟩, ?_⟩
           simp only [startTest_flow]
         · simp only [hroot, Bool.false_eq_true, if_false]
-          refine Or.inr ⟨⟨s1, h1, StartFrom.plain next dir _ evs hnext (by simpa using hroot) hd rfl⟩, ?_⟩
+          refine Or.inr ⟨⟨s1, h1, StartFrom.plain next dir _ evs g (SameNodes.refl g) hnext (by simpa using hroot) hd rfl⟩, ?_⟩
           simp only [startTest_flow]
       · simp only [hrun, Bool.false_eq_true, if_false]
         exact Or.inl (h1.trans ((silent_finishTraverse g w s1 next w).trans (afterTraverse_silent g hwf _ w next prev dir)))
 
-theorem iter_eff (g : Graph) (hwf : graphWF g = true) (s : State) (w : Nat)
+theorem iter_eff (g : Graph) (hwf : GraphWF g) (s : State) (w : Nat)
     (hpath : ∀ x ∈ (s.wd w).path, x < g.nodes.length) : StepEff g w s (iter g s w) := by
   unfold iter
   dsimp only
@@ -451,7 +584,7 @@ theorem iter_eff (g : Graph) (hwf : graphWF g = true) (s : State) (w : Nat)
           · exact fun _ => Or.inr rfl
           · intro d _ x hx
             have hx' : x = g.root := by simpa using hx
-            rw [hx']; exact graphWF_root hwf
+            rw [hx']; exact hwf.root_lt
         · split
           · split
             · exact traverseNode_eff g hwf s w next _ .up hnext
@@ -465,6 +598,44 @@ theorem iter_eff (g : Graph) (hwf : graphWF g = true) (s : State) (w : Nat)
                 | some r => obtain ⟨c, s2⟩ := r; exact Or.inl (pickParent_silent g hwf s next w c s2 hp)
               · exact traverseNode_eff g hwf s w next _ .down hnext
             · exact Or.inl (Silent.refl g w s)
+
+theorem silent_hidden (g : Graph) (w : Nat) (s : State) (h : List Nat) : Silent g w s { s with hidden := h } :=
+  ⟨rfl, rfl, fun _ => rfl, rfl, rfl, fun _ _ => rfl, rfl, rfl, Or.inl rfl, fun h => h⟩
+
+theorem silent_incompatible (g : Graph) (w : Nat) (s : State) (h : List (Nat × Nat)) : Silent g w s { s with incompatible := h } :=
+  ⟨rfl, rfl, fun _ => rfl, rfl, rfl, fun _ _ => rfl, rfl, rfl, Or.inl rfl, fun h => h⟩
+
+theorem silent_reveal (g : Graph) (w : Nat) (s : State) (f v : Nat) : Silent g w s (reveal g s f v) := by
+  unfold reveal
+  dsimp only
+  split
+  · exact silent_incompatible g w s _
+  · exact silent_hidden g w s _
+
+theorem silent_prepare (g : Graph) (w : Nat) (s : State) : Silent g w s (prepare g s w) := by
+  unfold prepare
+  dsimp only
+  cases (s.wd w).path.getLast? with
+  | none => exact Silent.refl g w s
+  | some next =>
+    dsimp only
+    have h0 : Silent g w s (s.setWd w (fun d => { d with unexplored := !(unexploredNodes (vis g s) s).isEmpty })) :=
+      silent_setWd g w s _ (fun _ => rfl) (fun _ => rfl) (fun _ => Or.inl rfl) (fun _ h => h)
+    split
+    · exact h0.trans (silent_reveal g w _ next w)
+    · exact h0
+
+/-- one iteration including the lazy expansion step -/
+theorem iterL_eff (g : Graph) (hwf : GraphWF g) (s : State) (w : Nat)
+    (hpath : ∀ x ∈ (s.wd w).path, x < g.nodes.length) : StepEff g w s (iterL g s w) := by
+  unfold iterL
+  split
+  · exact (iter_eff (vis g s) (hwf.vis s) s w (by rw [vis_len]; exact hpath)).transport (sameNodes_vis g s)
+  · dsimp only
+    have h0 := silent_prepare g w s
+    exact StepEff.of_silent h0
+      ((iter_eff (vis g (prepare g s w)) (hwf.vis _) (prepare g s w) w (by rw [vis_len]; exact h0.path hpath)).transport
+        (sameNodes_vis g _))
 
 /-- effect of the loop part on the state alone -/
 def LoopEff (g : Graph) (w : Nat) (s s' : State) : Prop :=
@@ -480,7 +651,7 @@ theorem silent_setPc (g : Graph) (w : Nat) (s : State) (pc : Pc) (h : pc.isTest 
     Silent g w s (s.setWd w (fun d => { d with pc := pc })) :=
   silent_setWd g w s _ (fun _ => rfl) (fun _ => rfl) (fun _ => Or.inr h) (fun _ h => h)
 
-theorem runLoop_eff (g : Graph) (hwf : graphWF g = true) (w : Nat) (fuel : Nat) (s : State) (evs : List Event)
+theorem runLoop_eff (g : Graph) (hwf : GraphWF g) (w : Nat) (fuel : Nat) (s : State) (evs : List Event)
     (hpath : ∀ x ∈ (s.wd w).path, x < g.nodes.length) : LoopEff g w s (runLoop g w fuel s evs).1 := by
   induction fuel generalizing s evs with
   | zero => exact Or.inl (Silent.refl g w s)
@@ -489,8 +660,8 @@ theorem runLoop_eff (g : Graph) (hwf : graphWF g = true) (w : Nat) (fuel : Nat) 
     dsimp only
     have h0 : Silent g w s (s.setWd w (fun d => { d with pc := .loop })) := silent_setPc g w s .loop rfl
     have hp0 := h0.path hpath
-    have he := iter_eff g hwf _ w hp0
-    rcases hi : iter g (s.setWd w (fun d => { d with pc := .loop })) w with ⟨s1, e, f⟩
+    have he := iterL_eff g hwf _ w hp0
+    rcases hi : iterL g (s.setWd w (fun d => { d with pc := .loop })) w with ⟨s1, e, f⟩
     rw [hi] at he
     cases f with
     | cont =>
@@ -515,7 +686,7 @@ theorem runLoop_eff (g : Graph) (hwf : graphWF g = true) (w : Nat) (fuel : Nat) 
       · simp at hf
 
 /-- with fuel the loop leaves the worker either at a non-test pc or freshly started -/
-theorem runLoop_eff_pos (g : Graph) (hwf : graphWF g = true) (w : Nat) (fuel : Nat) (hf : 0 < fuel) (s : State) (evs : List Event)
+theorem runLoop_eff_pos (g : Graph) (hwf : GraphWF g) (w : Nat) (fuel : Nat) (hf : 0 < fuel) (s : State) (evs : List Event)
     (hw : w < s.workers.length)
     (hpath : ∀ x ∈ (s.wd w).path, x < g.nodes.length) :
     (Silent g w s (runLoop g w fuel s evs).1 ∧ ((runLoop g w fuel s evs).1.wd w).pc.isTest = false) ∨
@@ -527,10 +698,10 @@ theorem runLoop_eff_pos (g : Graph) (hwf : graphWF g = true) (w : Nat) (fuel : N
     have hpc0 : ((s.setWd w (fun d => { d with pc := .loop })).wd w).pc.isTest = false := by
       rw [wd_setWd_eq s w _ hw]; rfl
     have hp0 := h0.path hpath
-    have he := iter_eff g hwf _ w hp0
+    have he := iterL_eff g hwf _ w hp0
     unfold runLoop
     dsimp only
-    rcases hi : iter g (s.setWd w (fun d => { d with pc := .loop })) w with ⟨s1, e, f⟩
+    rcases hi : iterL g (s.setWd w (fun d => { d with pc := .loop })) w with ⟨s1, e, f⟩
     rw [hi] at he
     cases f with
     | cont =>
@@ -585,7 +756,7 @@ def ContEff (g : Graph) (w n : Nat) (ph : Phase) (dir : Dir) (sc : State) (ok : 
     ((Silent g w (if ph = .pre then appendPre sc n w else sc) s' ∧ (s'.wd w).pc.isTest = false) ∨
       ∃ s1, Silent g w (if ph = .pre then appendPre sc n w else sc) s1 ∧ StartFrom g w s1 s'))
 
-theorem continueAfter_eff (g : Graph) (hwf : graphWF g = true) (w n : Nat) (ph : Phase) (dir : Dir) (fuel : Nat) (hf : 0 < fuel)
+theorem continueAfter_eff (g : Graph) (hwf : GraphWF g) (w n : Nat) (ph : Phase) (dir : Dir) (fuel : Nat) (hf : 0 < fuel)
     (sc : State) (ok : Bool) (evs : List Event) (hw : w < sc.workers.length)
     (hpath : ∀ x ∈ (sc.wd w).path, x < g.nodes.length) :
     ContEff g w n ph dir sc ok (resumeTest.continueAfter g w n ph dir fuel sc ok evs).1 := by
@@ -611,11 +782,11 @@ theorem continueAfter_eff (g : Graph) (hwf : graphWF g = true) (w n : Nat) (ph :
     have hlen : (if ph = .pre then appendPre sc n w else sc).workers.length = sc.workers.length := by split <;> rfl
     generalize (if ph = .pre then appendPre sc n w else sc) = sd at hwd hlen ⊢
     have h0 := silent_finishTraverse g w sd n w
-    have h1 := afterTraverse_silent g hwf (finishTraverse sd n w) w n
+    have h1 := afterTraverse_silent (vis g (finishTraverse sd n w)) (hwf.vis _) (finishTraverse sd n w) w n
       ((sc.wd w).path.getD ((sc.wd w).path.length - 2) 0) dir
-    rcases hat : afterTraverse g (finishTraverse sd n w) w n ((sc.wd w).path.getD ((sc.wd w).path.length - 2) 0) dir with ⟨s2, e2, f⟩
+    rcases hat : afterTraverse (vis g (finishTraverse sd n w)) (finishTraverse sd n w) w n ((sc.wd w).path.getD ((sc.wd w).path.length - 2) 0) dir with ⟨s2, e2, f⟩
     rw [hat] at h1
-    have h01 : Silent g w sd s2 := h0.trans h1
+    have h01 : Silent g w sd s2 := h0.trans (h1.transport (vis_len g _))
     have hw2 : w < s2.workers.length := by rw [h01.workersLen, hlen]; exact hw
     have hp2 : ∀ x ∈ (s2.wd w).path, x < g.nodes.length := h01.path (by rw [hwd]; exact hpath)
     have hloop : ∀ evs', ((Silent g w sd (runLoop g w fuel s2 evs').1 ∧ ((runLoop g w fuel s2 evs').1.wd w).pc.isTest = false) ∨
@@ -664,7 +835,7 @@ theorem keys_map_same (l : List (String × String × String × Nat)) (p : String
     simp only [List.map_cons, ih]
     by_cases h : p a = true <;> simp [h]
 
-theorem resumeTest_eff (g : Graph) (hwf : graphWF g = true) (s : State) (w n : Nat) (ph : Phase) (dir : Dir) (uid : String)
+theorem resumeTest_eff (g : Graph) (hwf : GraphWF g) (s : State) (w n : Nat) (ph : Phase) (dir : Dir) (uid : String)
     (tag wait : Nat) (out : Outcome) (fuel : Nat) (hf : 0 < fuel) (hw : w < s.workers.length)
     (hpath : ∀ x ∈ (s.wd w).path, x < g.nodes.length) :
     TestEff g s w n ph dir uid tag wait out (resumeTest g s w n ph dir uid tag wait out fuel).1 := by
@@ -761,7 +932,7 @@ theorem resumeTest_eff (g : Graph) (hwf : graphWF g = true) (s : State) (w n : N
       · exact Or.inr hc
 
 /-- shape of a whole step -/
-theorem resume_eff (g : Graph) (hwf : graphWF g = true) (s : State) (w : Nat) (out : Outcome) (fuel : Nat) (hf : 0 < fuel)
+theorem resume_eff (g : Graph) (hwf : GraphWF g) (s : State) (w : Nat) (out : Outcome) (fuel : Nat) (hf : 0 < fuel)
     (hw : w < s.workers.length) (hpath : ∀ x ∈ (s.wd w).path, x < g.nodes.length) :
     ((s.wd w).pc.isTest = false ∧
       (((Silent g w s (resume g s w out fuel).1 ∧ ((resume g s w out fuel).1.wd w).pc.isTest = false)) ∨
@@ -1174,7 +1345,7 @@ theorem Basic.startPre {g : Graph} {s : State} {w : Nat} (b : Basic g s (Ex w)) 
 theorem Basic.startFrom {g : Graph} {s1 s' : State} {w : Nat} (b : Basic g s1 (Ex w)) (h : StartFrom g w s1 s')
     (hw : w < g.workers.length) : Basic g s' All := by
   cases h with
-  | plain n dir s0 evs hn hroot hdec h =>
+  | plain n dir s0 evs gv hgv hn hroot hdec h =>
     rw [h]
     exact b.startNonPre n .plain dir hn hw (by decide) ⟨fun _ => rfl, fun _ => hroot⟩
   | pre n dir hn hroot h =>
@@ -1213,7 +1384,7 @@ theorem find?_append_singleton_ne_none {α} (l : List α) (x : α) (p : α → B
   exact this hx
 
 /-- the basic invariant is preserved by every step with fuel -/
-theorem Basic.step {g : Graph} (hwf : graphWF g = true) {s : State} (b : Basic g s All) (w : Nat) (out : Outcome) (fuel : Nat)
+theorem Basic.step {g : Graph} (hwf : GraphWF g) {s : State} (b : Basic g s All) (w : Nat) (out : Outcome) (fuel : Nat)
     (hw : w < g.workers.length) (hf : 0 < fuel) : Basic g (resume g s w out fuel).1 All := by
   have hws : w < s.workers.length := by rw [b.workersLen]; exact hw
   rcases resume_eff g hwf s w out fuel hf hws (b.paths w) with ⟨_, h⟩ | ⟨n, ph, dir, uid, tag, wait, hpc, sa, hrep, h⟩
@@ -1238,23 +1409,23 @@ theorem Basic.step {g : Graph} (hwf : graphWF g = true) {s : State} (b : Basic g
       exact ba.wait hpca (by rw [hsb.2.1]; exact hws) (wait + 1)
     · exact (ba.mono (fun _ _ => trivial)).cont hc hok.1 hw hok.2.2.2.1
 
-theorem Basic.init (g : Graph) (hwf : graphWF g = true) (ncls : Nat) (store : List (String × List (String × String))) :
-    Basic g (initState g ncls store) All := by
-  have hnd : ∀ m, ((initState g ncls store).nd m).results = [] := by
+theorem Basic.init (g : Graph) (hwf : GraphWF g) (ncls : Nat) (store : List (String × List (String × String))) (hidden : List Nat) :
+    Basic g (initState g ncls store hidden) All := by
+  have hnd : ∀ m, ((initState g ncls store hidden).nd m).results = [] := by
     intro m
     unfold initState State.nd
     simp only [List.getD_eq_getElem?_getD, List.getElem?_map]
     cases g.nodes[m]? <;> rfl
-  have hwd : ∀ v, ((initState g ncls store).wd v) = { path := [g.root] } ∨ ((initState g ncls store).wd v) = {} := by
+  have hwd : ∀ v, ((initState g ncls store hidden).wd v) = { path := [g.root] } ∨ ((initState g ncls store hidden).wd v) = {} := by
     intro v
     unfold initState State.wd
     simp only [List.getD_eq_getElem?_getD, List.getElem?_map]
     cases g.workers[v]?
     · right; rfl
     · left; rfl
-  have hpc : ∀ v, ((initState g ncls store).wd v).pc.isTest = false := by
+  have hpc : ∀ v, ((initState g ncls store hidden).wd v).pc.isTest = false := by
     intro v; rcases hwd v with h | h <;> rw [h] <;> rfl
-  have hnt : ∀ v n ph dir uid tag wait, ((initState g ncls store).wd v).pc ≠ .test n ph dir uid tag wait := by
+  have hnt : ∀ v n ph dir uid tag wait, ((initState g ncls store hidden).wd v).pc ≠ .test n ph dir uid tag wait := by
     intro v n ph dir uid tag wait h
     have := hpc v; rw [h] at this; simp [Pc.isTest] at this
   refine ⟨by simp [initState], by simp [initState], ?_, by simp [initState], ?_, ?_, ?_, ?_, ?_⟩
@@ -1262,7 +1433,7 @@ theorem Basic.init (g : Graph) (hwf : graphWF g = true) (ncls : Nat) (store : Li
     rcases hwd v with h | h
     · rw [h] at hx
       have : x = g.root := by simpa using hx
-      rw [this]; exact graphWF_root hwf
+      rw [this]; exact hwf.root_lt
     · rw [h] at hx; simp at hx
   · intro v n ph dir uid tag wait _ h; exact absurd h (hnt _ _ _ _ _ _ _)
   · intro v v' n ph dir uid tag wait n' ph' dir' uid' tag' wait' _ _ _ h; exact absurd h (hnt _ _ _ _ _ _ _)
@@ -1273,15 +1444,15 @@ theorem Basic.init (g : Graph) (hwf : graphWF g = true) (ncls : Nat) (store : Li
 /-- states reachable from the initial state by steps of real workers with fuel (the fuel only bounds the
 number of loop iterations of one step in the driver; with fuel 0 a step may stop before the pc is reset) -/
 inductive ReachableR (g : Graph) (ncls : Nat) (store : List (String × List (String × String))) : State → Prop
-  | init : ReachableR g ncls store (initState g ncls store)
+  | init (hidden : List Nat) : ReachableR g ncls store (initState g ncls store hidden)
   | step {s : State} (w : Nat) (out : Outcome) (fuel : Nat) :
       ReachableR g ncls store s → w < g.workers.length → 0 < fuel → ReachableR g ncls store (resume g s w out fuel).1
 
 theorem ReachableR.basic {g : Graph} (hwf : graphWF g = true) {ncls : Nat} {store : List (String × List (String × String))}
     {s : State} (h : ReachableR g ncls store s) : Basic g s All := by
   induction h with
-  | init => exact Basic.init g hwf ncls store
-  | step w out fuel _ hw hf ih => exact ih.step hwf w out fuel hw hf
+  | init hidden => exact Basic.init g (GraphWF.of_bool hwf) ncls store hidden
+  | step w out fuel _ hw hf ih => exact ih.step (GraphWF.of_bool hwf) w out fuel hw hf
 
 /-! ## counting the results of a class -/
 
@@ -1800,7 +1971,7 @@ theorem Uids.appendPre {g : Graph} {s : State} {L : Nat → Prop} (u : Uids g s 
 theorem Uids.startFrom {g : Graph} {s1 s' : State} {w : Nat} (u : Uids g s1 (Ex w)) (b : Basic g s1 (Ex w)) (hN : NamesInj g)
     (h : StartFrom g w s1 s') (hw : w < g.workers.length) : Uids g s' All := by
   cases h with
-  | plain n dir s0 evs hn hroot hdec h =>
+  | plain n dir s0 evs gv hgv hn hroot hdec h =>
     rw [h]
     exact u.startPlain b hN n dir hn hw
   | pre n dir hn hroot h =>
@@ -1844,7 +2015,7 @@ theorem repEff_none {s sa : State} {name uid : String} {wait : Nat} {out : Outco
     exact find?_append_singleton_ne_none _ _ _ (by simp) hnone
 
 /-- the identifier invariant is preserved by every step with fuel -/
-theorem Uids.step {g : Graph} (hwf : graphWF g = true) (hN : NamesInj g) (hP : PreNamesFresh g) {s : State}
+theorem Uids.step {g : Graph} (hwf : GraphWF g) (hN : NamesInj g) (hP : PreNamesFresh g) {s : State}
     (b : Basic g s All) (u : Uids g s All) (w : Nat) (out : Outcome) (fuel : Nat)
     (hw : w < g.workers.length) (hf : 0 < fuel) : Uids g (resume g s w out fuel).1 All := by
   have hws : w < s.workers.length := by rw [b.workersLen]; exact hw
@@ -1882,17 +2053,17 @@ theorem Uids.step {g : Graph} (hwf : graphWF g = true) (hN : NamesInj g) (hP : P
       subst hsa
       exact (u.mono (fun _ _ => trivial)).cont (b.mono (fun _ _ => trivial)) hN hc hw hok.2.2.2.1
 
-theorem Uids.init (g : Graph) (ncls : Nat) (store : List (String × List (String × String))) :
-    Uids g (initState g ncls store) All := by
-  have hwd : ∀ v, ((initState g ncls store).wd v).pc.isTest = false := by
+theorem Uids.init (g : Graph) (ncls : Nat) (store : List (String × List (String × String))) (hidden : List Nat) :
+    Uids g (initState g ncls store hidden) All := by
+  have hwd : ∀ v, ((initState g ncls store hidden).wd v).pc.isTest = false := by
     intro v
     unfold initState State.wd
     simp only [List.getD_eq_getElem?_getD, List.getElem?_map]
     cases g.workers[v]? <;> rfl
-  have hnt : ∀ v n ph dir uid tag wait, ((initState g ncls store).wd v).pc ≠ .test n ph dir uid tag wait := by
+  have hnt : ∀ v n ph dir uid tag wait, ((initState g ncls store hidden).wd v).pc ≠ .test n ph dir uid tag wait := by
     intro v n ph dir uid tag wait h
     have := hwd v; rw [h] at this; simp [Pc.isTest] at this
-  have hk : keys (initState g ncls store) = [] := rfl
+  have hk : keys (initState g ncls store hidden) = [] := rfl
   refine ⟨?_, ?_, ?_, ?_, ?_⟩
   · intro i k _ hkm; rw [hk] at hkm; simp at hkm
   · intro v n dir uid tag wait _ h; exact absurd h (hnt _ _ _ _ _ _ _)
@@ -1903,8 +2074,8 @@ theorem Uids.init (g : Graph) (ncls : Nat) (store : List (String × List (String
 theorem ReachableR.uids {g : Graph} (hwf : graphWF g = true) (hN : NamesInj g) (hP : PreNamesFresh g) {ncls : Nat}
     {store : List (String × List (String × String))} {s : State} (h : ReachableR g ncls store s) : Uids g s All := by
   induction h with
-  | init => exact Uids.init g ncls store
-  | step w out fuel hr hw hf ih => exact ih.step hwf hN hP (hr.basic hwf) w out fuel hw hf
+  | init hidden => exact Uids.init g ncls store hidden
+  | step w out fuel hr hw hf ih => exact ih.step (GraphWF.of_bool hwf) hN hP (hr.basic hwf) w out fuel hw hf
 
 /-! ## the retry budget of stateless classes -/
 
@@ -2008,17 +2179,18 @@ theorem startTest_nonpre_len (g : Graph) (s : State) (n w : Nat) (ph : Phase) (d
     · exact absurd h hj
 
 /-- a guarded start of a test proper keeps the budget -/
-theorem Budget.startPlain {g : Graph} {s0 s1 : State} {w : Nat} (j : Budget g s1) (b : Basic g s1 (Ex w))
-    (n : Nat) (dir : Dir) (evs : List Event) (hn : n < g.nodes.length)
-    (hdec : runDecision g s0 n w = .ok (true, s1, evs)) : Budget g (startTest g s1 n w .plain dir).1 := by
+theorem Budget.startPlain {g gv : Graph} {s0 s1 : State} {w : Nat} (j : Budget g s1) (b : Basic g s1 (Ex w))
+    (n : Nat) (dir : Dir) (evs : List Event) (hn : n < g.nodes.length) (hgv : SameNodes gv g)
+    (hdec : runDecision gv s0 n w = .ok (true, s1, evs)) : Budget g (startTest g s1 n w .plain dir).1 := by
   intro c M hc
   have hns : n < s1.nodes.length := by rw [b.nodesLen]; exact hn
   obtain ⟨h1, h2⟩ := startTest_nonpre_len g s1 n w .plain dir (by decide) hns
   by_cases hcn : (g.node n).cls = c
   · rw [classLen_succ hn hcn h1 h2]
     obtain ⟨hsets, hM⟩ := (statelessClass_spec hc).2 n hn hcn
-    obtain ⟨hs, hflat, hlt⟩ := runDecision_true_stateless g s0 n w s1 evs hsets hdec
-    rw [← hs, sharedResults_length g s1 n hn hflat, hcn, hM] at hlt
+    obtain ⟨hs, hflat, hlt⟩ := runDecision_true_stateless gv s0 n w s1 evs (by rw [hgv.sets]; exact hsets) hdec
+    rw [hgv.flat] at hflat
+    rw [← hs, sharedResults_sameNodes hgv, hgv.maxTries, sharedResults_length g s1 n hn hflat, hcn, hM] at hlt
     push_cast
     omega
   · rw [classLen_other hcn h2]
@@ -2062,7 +2234,7 @@ theorem Budget.appendPre {g : Graph} {s : State} (j : Budget g s) (n w : Nat) (h
 theorem Budget.startFrom {g : Graph} {s1 s' : State} {w : Nat} (j : Budget g s1) (b : Basic g s1 (Ex w))
     (h : StartFrom g w s1 s') : Budget g s' := by
   cases h with
-  | plain n dir s0 evs hn hroot hdec h => rw [h]; exact j.startPlain b n dir evs hn hdec
+  | plain n dir s0 evs gv hgv hn hroot hdec h => rw [h]; exact j.startPlain b n dir evs hn hgv hdec
   | pre n dir hn hroot h =>
     rw [h]
     have j0 : Budget g (s1.setWd w (fun d => { d with preResults := (s1.nd n).results, preName := preNameOf g n w })) :=
@@ -2094,7 +2266,7 @@ theorem Budget.cont {g : Graph} {sc s' : State} {w n : Nat} {ph : Phase} {dir : 
     · exact (jd.silent a).startFrom (bd.silent a) hs
 
 /-- the budget invariant is preserved by every step with fuel -/
-theorem Budget.step {g : Graph} (hwf : graphWF g = true) {s : State} (b : Basic g s All) (j : Budget g s)
+theorem Budget.step {g : Graph} (hwf : GraphWF g) {s : State} (b : Basic g s All) (j : Budget g s)
     (w : Nat) (out : Outcome) (fuel : Nat) (hw : w < g.workers.length) (hf : 0 < fuel) :
     Budget g (resume g s w out fuel).1 := by
   have hws : w < s.workers.length := by rw [b.workersLen]; exact hw
@@ -2125,12 +2297,12 @@ theorem Budget.step {g : Graph} (hwf : graphWF g = true) {s : State} (b : Basic 
       exact ja.anti (fun m _ => Nat.le_refl _)
     · exact ja.cont (ba.mono (fun _ _ => trivial)) hc hok.2.2.2.1
 
-theorem Budget.init (g : Graph) (ncls : Nat) (store : List (String × List (String × String))) :
-    Budget g (initState g ncls store) := by
+theorem Budget.init (g : Graph) (ncls : Nat) (store : List (String × List (String × String))) (hidden : List Nat) :
+    Budget g (initState g ncls store hidden) := by
   intro c M _
-  have : classLen g (initState g ncls store) c = 0 := by
+  have : classLen g (initState g ncls store hidden) c = 0 := by
     unfold classLen
-    have : ∀ m, ((initState g ncls store).nd m).results.length = 0 := by
+    have : ∀ m, ((initState g ncls store hidden).nd m).results.length = 0 := by
       intro m
       unfold initState State.nd
       simp only [List.getD_eq_getElem?_getD, List.getElem?_map]
@@ -2146,8 +2318,8 @@ theorem Budget.init (g : Graph) (ncls : Nat) (store : List (String × List (Stri
 theorem ReachableR.budget {g : Graph} (hwf : graphWF g = true) {ncls : Nat}
     {store : List (String × List (String × String))} {s : State} (h : ReachableR g ncls store s) : Budget g s := by
   induction h with
-  | init => exact Budget.init g ncls store
-  | step w out fuel hr hw hf ih => exact ih.step hwf (hr.basic hwf) w out fuel hw hf
+  | init hidden => exact Budget.init g ncls store hidden
+  | step w out fuel hr hw hf ih => exact ih.step (GraphWF.of_bool hwf) (hr.basic hwf) w out fuel hw hf
 
 /-! ## result lists only grow -/
 
@@ -2168,7 +2340,7 @@ theorem startTest_ext (g : Graph) (s : State) (n w : Nat) (ph : Phase) (dir : Di
 
 theorem StartFrom.ext {g : Graph} {w : Nat} {s1 s' : State} (h : StartFrom g w s1 s') : Ext s1 s' := by
   cases h with
-  | plain n dir s0 evs hn hroot hdec h => rw [h]; exact startTest_ext g s1 n w .plain dir
+  | plain n dir s0 evs gv hgv hn hroot hdec h => rw [h]; exact startTest_ext g s1 n w .plain dir
   | pre n dir hn hroot h =>
     rw [h]
     exact Ext.trans (s1 := s1.setWd w (fun d => { d with preResults := (s1.nd n).results, preName := preNameOf g n w }))
@@ -2203,7 +2375,7 @@ def removable (s : State) (w m : Nat) (r : Result) : Bool :=
 
 /-- Along a step every result list keeps its elements in order, except that the placeholder of the awaited
 test proper may disappear from the node it was run on; whatever is new is appended behind. -/
-theorem resume_results_sublist (g : Graph) (hwf : graphWF g = true) (s : State) (w : Nat) (out : Outcome) (fuel : Nat)
+theorem resume_results_sublist (g : Graph) (hwf : GraphWF g) (s : State) (w : Nat) (out : Outcome) (fuel : Nat)
     (hf : 0 < fuel) (hw : w < s.workers.length) (hpath : ∀ x ∈ (s.wd w).path, x < g.nodes.length) (m : Nat) :
     ((s.nd m).results.filter (fun r => !removable s w m r)).Sublist ((resume g s w out fuel).1.nd m).results := by
   rcases resume_eff g hwf s w out fuel hf hw hpath with ⟨_, h⟩ | ⟨n, ph, dir, uid, tag, wait, hpc, sa, hrep, h⟩
@@ -2245,7 +2417,7 @@ theorem resume_results_sublist (g : Graph) (hwf : graphWF g = true) (s : State) 
       rw [hsb.nd]; exact List.filter_sublist
 
 /-- … in particular: unless `w` awaits a test proper at `m`, the list of `m` is only extended -/
-theorem resume_results_prefix (g : Graph) (hwf : graphWF g = true) (s : State) (w : Nat) (out : Outcome) (fuel : Nat)
+theorem resume_results_prefix (g : Graph) (hwf : GraphWF g) (s : State) (w : Nat) (out : Outcome) (fuel : Nat)
     (hf : 0 < fuel) (hw : w < s.workers.length) (hpath : ∀ x ∈ (s.wd w).path, x < g.nodes.length) (m : Nat)
     (hm : ∀ n ph dir uid tag wait, (s.wd w).pc = .test n ph dir uid tag wait → ph = .pre ∨ n ≠ m) :
     (s.nd m).results <+: ((resume g s w out fuel).1.nd m).results := by
@@ -2430,7 +2602,7 @@ theorem runDecision_true_stateful (g : Graph) (s : State) (n w : Nat) (s1 : Stat
 
 /-! ## the result filed is the one this execution reported -/
 
-theorem resume_files_own_result {g : Graph} (hwf : graphWF g = true) {s : State}
+theorem resume_files_own_result {g : Graph} (hwf : GraphWF g) {s : State}
     (b : Basic g s All) (u : Uids g s All) (w n : Nat) (dir : Dir) (uid : String) (tag : Nat)
     (hpc : (s.wd w).pc = .test n .plain dir uid tag 0) (hg : good g n = true) (out : Outcome) (st : String)
     (hst : out.status = some st) (fuel : Nat) (hf : 0 < fuel) :
